@@ -34,6 +34,7 @@ def f4(x):
 EC_DEFS = {  # id: (type code, min, max, default, name, unit)
     20: ("I2", 0, 10, 5, "ec20", "mm"),
     "EC2": ("F4", -1.0, 1.0, 0.5, "ec2", ""),
+    21: ("I2", -5, 0, -2, "ec21", ""),  # a limit that is zero (falsy) at the upper end; ec20 has it at the lower end
 }
 BUILTIN_EC = {1: ("I2", 10, 120, 10, "EstablishCommunicationsTimeout", "sec"), 2: ("I4", 0, 2, 1, "TimeFormat", "")}
 ALARMS = {25: ("alarm25", "text25", 0x01), 26: ("alarm26", "text26", 0x02)}
@@ -49,17 +50,18 @@ EVENTS = {
     "ec20_2_unknown": ("s2f15", [(20, 2), (99, 1)]),
     "ec20_twice": ("s2f15", [(20, 1), (20, 9)]),
     "ec1_30": ("s2f15", [(1, 30)]),
+    "ec21_1": ("s2f15", [(21, 1)]), "ec21_0": ("s2f15", [(21, 0)]), "ec21_m6": ("s2f15", [(21, -6)]), "ec21_1_ec20_3": ("s2f15", [(20, 3), (21, 1)]),
     "en25": ("s5f3", (True, 25)), "dis25": ("s5f3", (False, 25)), "en26": ("s5f3", (True, 26)), "en99": ("s5f3", (True, 99)),
     "set25": ("alarm", ("set", 25)), "clear25": ("alarm", ("clear", 25)), "set26": ("alarm", ("set", 26)), "clear26": ("alarm", ("clear", 26)),
     "sv_toggle": ("sv", None),
     "set25_noack": ("alarm", ("set", 25, "noack")), "clear25_noack": ("alarm", ("clear", 25, "noack")),
 }
 ALPHABET_QUICK = ["ec20_7", "en25", "set25", "set25_noack", "ec20_11", "ec20_4_then_bad", "clear25", "ec2_025", "sv_toggle", "dis25", "ec20_3_ec2_1",
-                  "bad_then_ec2_0", "ec20_2_unknown", "set26", "ec20_0", "ec20_10", "ec20_m1", "ec2_15", "ec2_m1"]
+                  "bad_then_ec2_0", "ec20_2_unknown", "set26", "ec20_0", "ec20_10", "ec20_m1", "ec2_15", "ec2_m1", "ec21_1", "ec21_0"]
 ALPHABET_FULL = list(EVENTS)
 
 ID_LISTS_SV = [[], [10], ["SV2"], [10, "SV2"], ["SV2", 10], [99], [10, 99], [99, 10], [10, 10], ["nope"], [1002], [1004, 1005]]
-ID_LISTS_EC = [[], [20], ["EC2"], [20, "EC2"], ["EC2", 20], [99], [20, 99], [20, 20], [1, 2]]
+ID_LISTS_EC = [[], [20], ["EC2"], [20, "EC2"], ["EC2", 20], [99], [20, 99], [20, 20], [1, 2], [21, 20]]
 ID_LISTS_AL = [[], [25], [26], [25, 26], [26, 25], [25, 25]]
 
 
@@ -68,14 +70,14 @@ class Ref:
         self.sv = {10: ("U4", [5]), "SV2": ("A", b"abc")}
         self.sv_meta = {10: ("sv10", "u"), "SV2": ("sv2", "kg"), 1001: ("Clock", ""), 1002: ("ControlState", ""), 1003: ("EventsEnabled", ""),
                         1004: ("AlarmsEnabled", ""), 1005: ("AlarmsSet", "")}
-        self.ec = {1: 10, 2: 1, 20: 5, "EC2": 0.5}
+        self.ec = {1: 10, 2: 1, 20: 5, "EC2": 0.5, 21: -2}
         self.al = {25: [False, False], 26: [False, False]}  # enabled, set
 
     def sv_order(self):
         return [1001, 1002, 1003, 1004, 1005, 10, "SV2"]
 
     def ec_order(self):
-        return [1, 2, 20, "EC2"]
+        return [1, 2, 20, "EC2", 21]
 
     def ec_def(self, i):
         return BUILTIN_EC.get(i) or EC_DEFS[i]
@@ -97,6 +99,7 @@ class Harness:
         h.status_variables["SV2"] = sv2
         h.equipment_constants[20] = secsgem.gem.EquipmentConstant(20, "ec20", 0, 10, 5, "mm", V.I2)
         h.equipment_constants["EC2"] = secsgem.gem.EquipmentConstant("EC2", "ec2", -1.0, 1.0, 0.5, "", V.F4, False)
+        h.equipment_constants[21] = secsgem.gem.EquipmentConstant(21, "ec21", -5, 0, -2, "", V.I2)
         for alid, (name, text, code) in ALARMS.items():
             h.alarms[alid] = secsgem.gem.Alarm(alid, name, text, code, 100000 + alid, 200000 + alid)
         self.ref = Ref()
@@ -337,8 +340,12 @@ class Harness:
 
     def canon(self):
         h = self.h
-        return {"ec": {str(k): h.equipment_constants[k].value for k in (20, "EC2")}, "ect": h.settings.establish_communication_timeout,
-                "al": {str(k): (a.enabled, a.set) for k, a in h.alarms.items()}, "sv": h.status_variables[10].value, "comm": self.ep.comm()}
+        # every attribute of the alarm / constant objects (not a hand-picked subset: hidden per-object state must keep states apart)
+        def attrs(obj):
+            return sorted((n, repr(v)) for n, v in vars(obj).items() if isinstance(v, (bool, int, float, str, bytes, type(None), list, tuple)))
+
+        return {"ec": {str(k): attrs(h.equipment_constants[k]) for k in (20, "EC2", 21)}, "ect": h.settings.establish_communication_timeout,
+                "al": {str(k): attrs(a) for k, a in h.alarms.items()}, "sv": h.status_variables[10].value, "comm": self.ep.comm()}
 
 
 def _id_eq(item, ident_value):
